@@ -43,6 +43,12 @@ SHORT = {
  "r5_C06": ("RefreshItems::drop: iterator rebuild skipped when the old table became empty (ZST)", "zero-sized element, retain/replace_entry_with(None) empties the old table, later insert"),
  "r5_C10": ("try_reserve (split branch): infallible grow() + Ok(())", "mid-resize try_reserve(n) with n unallocatable but leftovers + n not overflowing: panics instead of Err"),
  "r5_C17": ("and_carry_with_hasher: insert_no_grow instead of the growing insert", "clone_from into a smaller destination whose allocation is reused, source mid-resize: growth_left underflow"),
+ "r6_C07": ("carry_all: hashes the element in place, removes it from the old table afterwards", "panicking Hash inside a mid-resize reserve: the cached iterator is already past an element that is still stored"),
+ "r6_C09": ("map::DrainFilter::drop re-creates the iterator when a removal released the old table", "filter dropped early and the rest of the old table matches: predicate called again on main-table elements"),
+ "r6_C11": ("clone_from_with_hasher: fast path `clear()` when the source's main table is empty", "source mid-resize with an empty main table (just reserved / main emptied): clone loses the leftovers"),
+ "r6_C13": ("HashSet::union: `smaller.difference(other)` instead of `difference(larger)`", "receiver smaller than the argument: elements only in the argument are missing from the union"),
+ "r6_C14": ("HashMap::is_empty looks at the main table only", "mid-resize map whose main table is empty but leftovers are not: is_empty() true with len() > 0"),
+ "r6_C16": ("HashSet::deserialize_in_place returns early when the sequence announces size 0", "empty serialized set into a non-empty destination: old elements survive"),
  "d1": ("revert of fix dbcf4bd", "retain away the old table; shrink_to_fit; insert"),
  "d35": ("revert of fix dc3af20", "replace_entry_with on an old-table element (panic / beyond cursor group)"),
  "d2": ("revert of fix ce142c0", "HashSet<()>: insert; reserve(10); remove"),
